@@ -5,7 +5,7 @@
    A #a field (dump AFTER a successful validation of an edited tree) gives one more item  A:<rfc_valid>:<rules>.
    rfc_valid and the rules are evaluated on the explicit nodes (nodes flagged LYD_DEFAULT dropped).
    For every #d field (a dump printed by t_valid's  dump t<k> 1: flags d = LYD_DEFAULT, n = LYD_NEW) the answer has one
-   item  <impl_validate verdict>:<rfc_valid 0|1>:<violated rules>:<placed 0|1>:<vschema_ok>1<fresh>
+   item  <impl_validate verdict>:<rfc_valid 0|1>:<violated rules>:<placed 0|1>:<vschema_ok><hist_ok and no empty non-presence container><fresh and every node flagged new>:<last error of impl_validate_multi>
    (items joined by " | "):
      verdict  0 | dup dupcase nomand nomandchoice nomin nomax nouniq nokey type fuel
      rules    letters of the violated rules of RfcValid.v: t types k keys s single u keyuniq l llval c case m mand
@@ -91,6 +91,8 @@ let parse_vdump (nt : names) (s : string) : vnode list =
     f
   end
 
+let rec all_new (l : vnode list) : bool = List.for_all (fun (VN (_, _, _, w, _, ch)) -> w && all_new ch) l
+
 let class_of = function
   | EFuel -> "fuel" | EType -> "type" | EKey -> "nokey" | EDup -> "dup" | EDupCase -> "dupcase" | ENoMand -> "nomand"
   | ENoMandChoice -> "nomandchoice" | ENoMin -> "nomin" | ENoMax -> "nomax" | ENoUniq -> "nouniq"
@@ -113,8 +115,20 @@ let rules vs (f : dnode list) : string =
   add 'q' (rfc_unique vs f);
   if Buffer.length b = 0 then "-" else Buffer.contents b
 
+(* #I <edges b>d,...> <bases a+b|-> <identity>  ->  I:<idref_check 0|1> *)
+let run_idref (spec : string) : string =
+  match String.split_on_char ' ' spec with
+  | [edges; bases; ident] ->
+      let e = if edges = "-" then [] else List.map (fun x -> match String.split_on_char '>' x with
+                | [a; b] -> (n_of_dec a, n_of_dec b) | _ -> raise (Tree_io "edge")) (String.split_on_char ',' edges) in
+      let bs = if bases = "-" then [] else List.map n_of_dec (String.split_on_char '+' bases) in
+      if idref_check e bs (n_of_dec ident) then "I:1" else "I:0"
+  | _ -> raise (Tree_io "idref spec")
+
 let run (f : string list) : string =
   match f with
+  | "valid" :: rest when field_opt rest "I" <> None ->
+      (try run_idref (field rest "I") with Tree_io m -> "E " ^ m)
   | "valid" :: rest ->
       (try
          let sch = parse_schema (field rest "s") in
@@ -124,9 +138,12 @@ let run (f : string list) : string =
            let vf = parse_vdump nt d in
            let ef = explicit vf in
            let v = match impl_validate vs vf with VOk -> "0" | VErr e -> class_of e in
-           Printf.sprintf "%s:%d:%s:%d:%d%d%d" v (if rfc_valid ty_true vs ef then 1 else 0) (rules vs (prune vs ef))
+           let ml = match List.rev (impl_validate_multi vs vf) with [] -> "0" | e :: _ -> class_of e in
+           Printf.sprintf "%s:%d:%s:%d:%d%d%d:%s" v (if rfc_valid ty_true vs ef then 1 else 0) (rules vs (prune vs ef))
              (if placed vs (List.map erase vf) then 1 else 0)
-             (if vschema_ok vs then 1 else 0) 1 (if fresh vs (List.map erase vf) then 1 else 0) in
+             (if vschema_ok vs then 1 else 0)
+             (if hist_ok vs vf && no_empty_np vs (List.map erase vf) then 1 else 0)
+             (if fresh vs (List.map erase vf) && all_new vf then 1 else 0) ml in
          let after d =
            let ef = explicit (parse_vdump nt d) in
            Printf.sprintf "A:%d:%s" (if rfc_valid ty_true vs ef then 1 else 0) (rules vs (prune vs ef)) in
